@@ -39,7 +39,7 @@ def vc_task(task):
     c = {Q + k: cuts.havoc_cut(shape) for k in HAVOC.get(task['contract'], [])}
     c[Q + 'can_win_now'] = cuts.pure_cut('bool')
     res = verify_contract(src, K, shape, chips='int', cuts=c, timeout_ms=task['timeout_ms'], setup=skolem_card,
-                          keep_smt=1 if task['contract'] == 'muck_hole_cards' else 0, tag=f'n{shape.n}d{shape.deck_cap}')
+                          keep_smt=1 if task['contract'] == 'muck_hole_cards' else 0, tag=f'n{shape.n}d{shape.deck_cap}' + (f'h{shape.H}' if shape.H != 2 else ''))
     for r in res['results']:
         if r['kind'] == 'safety':
             r['prop'] = 'C07'
@@ -53,7 +53,9 @@ def main(argv=None):
     only = [a for a in args if a in NAMES]
     tasks = []
     for name in (only or NAMES):
-        for sh in shapes(chk.tier):
+        extra = [Shape(n=2, S=2, T=1, B=1, H=3, deck_cap=2, pile_cap=2, board_cap=2)] if name == 'stand_pat_or_discard' else []   # a hand that can hold
+        # two unknown cards next to a known one
+        for sh in shapes(chk.tier) + extra:
             tasks.append({'module': 'props.c06', 'fn': 'vc_task', 'name': f'{name}/n{sh.n}', 'contract': name, 'shape': sh.as_dict(),
                           'timeout_ms': 120000 if chk.tier == 'thorough' else 40000, 'weight': sh.n})
     chk.run_tasks(tasks)
